@@ -17,7 +17,7 @@ from . import dispatch as D
 NAME = 'dispatch'       # cases use the dispatch protocol of the driver
 KINDS = ['po', 'pk', 'vp', 'ko', 'vk']
 ORDER = {k: i for i, k in enumerate(KINDS)}
-NAMES = ['a', 'b', 'c', 'd']
+NAMES = ['a', 'ab', 'abc', 'd']      # names contained in one another: exclusion is by equality of names, not by containment
 KIND_NAME = {'po': 'POSITIONAL_ONLY', 'vp': 'VAR_POSITIONAL', 'vk': 'VAR_KEYWORD'}
 
 
